@@ -214,6 +214,32 @@ pub fn main(args: &Args) -> std::io::Result<()> {
         }
     }
     st.add("meandering_polygons", accepted);
+    // long convex chains (the shape of a circle's side): k vertices bulging outwards on one side, the other
+    // side straight, far away, or another arc; every k up to 40 (the fan hierarchy of flush_side depends on k)
+    let kmax = if args.thorough() { 64 } else { 40 };
+    for k in 3..=kmax {
+        for variant in 0..6 {
+            let ys = *rng.pick(&[1i64, 2, 3]);
+            let amp = 1 + rng.below(3) as i64;
+            let mut verts: Vec<(i64, i64, bool)> = Vec::new();
+            let bulge = |i: i64, n: i64| amp * i * (n - i); // parabola: strictly convex chain
+            let n = k as i64 + 1;
+            let (left_arc, right_kind) = (variant % 2 == 0, variant / 2);
+            for i in 1..=k as i64 {
+                let x = bulge(i, n);
+                verts.push((if left_arc { -x } else { x }, i * ys * 2, left_arc));
+                match right_kind {
+                    1 if i % 3 == 0 => verts.push((if left_arc { 3 } else { -3 }, i * ys * 2 + 1, !left_arc)),
+                    2 => verts.push((if left_arc { bulge(i, n) / 2 + 1 } else { -(bulge(i, n) / 2) - 1 }, i * ys * 2 + 1, !left_arc)),
+                    _ => {}
+                }
+            }
+            let case = Case { first: (0, 0), verts, last: (0, n * ys * 2), monotone: true };
+            for adv in [false, true] {
+                run_case(&mut id, &case, adv, &mut w, &mut st, &mut idx, "convex_arc");
+            }
+        }
+    }
     // arbitrary (not necessarily monotone-polygon) sequences: y non-decreasing, any x, any side
     for _ in 0..n_random / 2 {
         let k = rng.below(8) as usize;
